@@ -170,7 +170,7 @@ NOT_YET = "check not built yet in this round (planned, see DESIGN.md section 7)"
 ADDED = {
     "C03": (" + replay of TLC-generated radix universes (over-grant direction)",
             " Added: one long-lived middleware reconfigured from configuration to configuration with carry-over, cross, shape and "
-            "history probes; every insertion sequence of two RadixMC universes replayed, an origin Origins!Allowed does not admit must never be echoed. Later: responses not yet committed must not change while other middlewares serve (LateChange); layered variants (behind an outer middleware of this library / a layer leaving the request's own Origin slice as ACAO) judged on what the middleware emits; header keys without field lines as writer pre-state."),
+            "history probes; every insertion sequence of two RadixMC universes replayed, an origin Origins!Allowed does not admit must never be echoed. Later: responses not yet committed must not change while other middlewares serve (LateChange); layered variants (behind an outer middleware of this library / a layer leaving the request's own Origin slice as ACAO) judged on what the middleware emits; header keys without field lines as writer pre-state. Round 11: conformance of Cors!Respond with pre-set headers (75 k responses per quick run); appending writers; buffered view."),
     "C04": ("", " Added: Reconfigure on middlewares holding neighbour configurations; `*`-mixed origin lists always replayed; deep / wildcard-rule / "
                 "exception-rule public suffixes; 64-bit boundary integers (capped projection for TLC). Later: wildcard-mixed lists always replayed, final-label / multi-KiB defects, look-alike header names, internationalized public suffixes."),
     "C05": ("", " Added: as C04; errors are traversed twice over one iterator value."),
@@ -179,23 +179,23 @@ ADDED = {
             "round trip = violation); deterministic sweep of the scalar boundary values; noise operations. Later: six documented ways of arriving at a configuration (buildVia); both middlewares serve behind a mutating handler before Config() is read."),
     "C07": (" + TLC-generated method-race scenarios (ConcMC.tla) executed under every schedule",
             " Added: ConcMC.tla generates initial state x 2 (thorough: 3) concurrent calls x epilogue; every schedule of the gate-to-gate segments is run, "
-            "then the epilogue and probes; typed atomics are gates too; a panic in a scheduled thread is an event TLC flags. Later: the caller reusing its own edited Config value; replay tolerant of state that outlives an execution."),
+            "then the epilogue and probes; typed atomics are gates too; a panic in a scheduled thread is an event TLC flags. Later: the caller reusing its own edited Config value; replay tolerant of state that outlives an execution. Round 11: handlers keep the header values they were given, commit, then edit them; the epilogue's probes and Config() run twice."),
     "C08": (" + twin experiment over TLC-generated histories + ConcMC scenarios containing a rejected Reconfigure",
             " Added: every LifecycleMC history with a rejected Reconfigure is performed with and without the rejected calls and compared after every later "
             "operation (TraceLifecycle!Pair); a rejected Reconfigure racing with another call under every schedule (TraceMiddleware)."),
     "C09": (" + ConcMC scenarios containing a SetDebug under every schedule", " Added: SetDebug racing with Reconfigure (ConcMC.tla), epilogue makes a latent debug flag observable. Later: every other history makes its SetDebug / Reconfigure calls from inside a handler the middleware wraps (Hang event when a call does not return)."),
-    "C10": ("", " Added: long-lived reconfigured middleware, identical requests at both ends of a block, request shapes (body, URL) that Vary cannot name. Later: allow-all configurations that also list patterns, `*` position in deterministic alternation; two early-wrapped handlers."),
-    "C11": ("", " Added: handlers wrapped before configuration; a handler that calls back into its own middleware under a watchdog (Hang event); request shapes. Later: driver watchdog - a call into the library that never returns ends the run with a Hang event; flagged when a plain request no longer gets through."),
+    "C10": ("", " Added: long-lived reconfigured middleware, identical requests at both ends of a block, request shapes (body, URL) that Vary cannot name. Later: allow-all configurations that also list patterns, `*` position in deterministic alternation; two early-wrapped handlers. Round 11: noise operations (Config() calls) in the middle of every other middleware's blocks; nested middlewares."),
+    "C11": ("", " Added: handlers wrapped before configuration; a handler that calls back into its own middleware under a watchdog (Hang event); request shapes. Later: driver watchdog - a call into the library that never returns ends the run with a Hang event; flagged when a plain request no longer gets through. Round 11: a never-configured second middleware nested inside / outside the one under test; conformance of Cors!Respond with pre-set headers on every response."),
     "C12": (" + TLC-generated histories over two middlewares (MultiMC.tla) + history independence against a fresh middleware per request (TraceServe Prop C12)",
             " Added: MultiMC.tla generates every history of 3 (thorough: 4) operations over two middlewares incl. mutate-argument, mutate-result, "
             "mutating handler and in-place reuse of the passed Config; a long-lived middleware serves every block twice in different orders and must answer like a "
-            "middleware created for that one request."),
+            "middleware created for that one request. Round 11: appending writers (a value appended to every field present once the status is committed, after recording what the client sees)."),
     "C13": ("", " Added: look-alike custom schemes; each pattern also listed before/after `*`, a valid origin and a near-covering wildcard pattern (verdict and self-match must not change). Later: each string also in configurations unacceptable for an unrelated reason (a defective pattern is still named, a valid one never)."),
-    "C14": ("", " Added: allow-lists of 9-20 names with every ordered pair; noise operations (aliasing of Config() results)."),
-    "C15": ("", " Added: header names with every token punctuation, long names, names byte-identical in both header lists. Later: Authorization next to an exposed `*` in alternation; two fixed wildcard configurations whose every permutation is compared."),
-    "C16": (" + ConcMC scenarios containing SetDebug(false) under every schedule", " Added: debug off according to the calls made: SetDebug(false) racing with other calls."),
+    "C14": ("", " Added: allow-lists of 9-20 names with every ordered pair; noise operations (aliasing of Config() results). Round 11: the rest of the configuration varies (Methods `*`, credentials, max-age, exposed headers, status, more origins)."),
+    "C15": ("", " Added: header names with every token punctuation, long names, names byte-identical in both header lists. Later: Authorization next to an exposed `*` in alternation; two fixed wildcard configurations whose every permutation is compared. Round 11: twins differing only in repetition, derived from the rendered form and installed by Reconfigure over it; a fixed case with names beyond 255 bytes."),
+    "C16": (" + ConcMC scenarios containing SetDebug(false) under every schedule", " Added: debug off according to the calls made: SetDebug(false) racing with other calls. Round 11: buffered view - the response a writer sends that reads the header map when the handler chain has returned is judged too."),
     "C17": (" + schedule exploration (panics in scheduled threads)", " Added: long mixed-case tokens; every error walked with every break position; the request x writer and ConcMC scenarios under every schedule. Later: C03's layered and empty-key writer states are replayed here too."),
-    "C18": ("", " Added: 128-name, 64-long-name, 121-deep-chain and wildcard configurations; padded / cased / per-line / pairs-per-line ladders of allowed values. Later: deep allowed origins with A-labels, digit, hyphenated and 63-byte labels; pre-set response headers (/preset)."),
+    "C18": ("", " Added: 128-name, 64-long-name, 121-deep-chain and wildcard configurations; padded / cased / per-line / pairs-per-line ladders of allowed values. Later: deep allowed origins with A-labels, digit, hyphenated and 63-byte labels; pre-set response headers (/preset). Round 11: allowed-list and deep-origin ladders serve two sibling requests in alternation."),
     "C19": ("", " Added: two loops over one iterator value; deep trees (nesting 7..33)."),
 }
 
